@@ -1,4 +1,6 @@
 """C04 - cost bounds only tighten, stay sound, and converge."""
+import random
+
 from vlib import docs as D
 from vlib import gt
 from vlib.par import pmap
@@ -60,7 +62,7 @@ def _run_pair_inner(job):
     mon = Monitor().install()
     fails = []
     try:
-        ta, tb = gt.build(a, opt), gt.build(b, opt)
+        (ta, _), (tb, _) = gt.build_any(a, opt), gt.build_any(b, opt)
         e = ta.edits(tb)
         steps = 0
         while e.tighten_bounds():
@@ -73,6 +75,12 @@ def _run_pair_inner(job):
         if not fails and fb.lower_bound != fb.upper_bound and getattr(e, 'valid', True):
             fails.append({'what': f"top-level edit reports no progress with non-definitive bounds {fb} for {a!r} vs {b!r}",
                           'class': 'c04-false-not-definitive'})
+        if not getattr(e, 'valid', True):
+            fails.append({'what': f"the top-level edit of {a!r} vs {b!r} invalidated itself: bounds {fb} (an edit returned by "
+                                  f"TreeNode.edits for two documents is never impossible)", 'class': 'c04-top-level-invalidated'})
+        for name, before, r, after in mon.invalidated:
+            fails.append({'what': f"{name} invalidated itself during refinement: bounds {before} -> {after} (returned {r}) for "
+                                  f"{a!r} vs {b!r} opt={opt}", 'class': f'c04-invalidated:{name}'})
         for ev in mon.events + mon.soundness_events():
             kind, cls, before, r, after = ev
             fails.append({'what': f"{cls}.tighten_bounds: {kind}: bounds {before} -> {after} (returned {r}) for {a!r} vs {b!r} opt={opt}",
@@ -101,6 +109,19 @@ def bounded(tier, seed, repo_root):
     large = [([big[0], big[1], big[2]], [1, 2]), ([1, 2], [big[0], big[1], big[2]]), ([big[3], 1], [2]),
              ({"a": [big[0], big[1], big[2]]}, {"a": [7]}), ([big[0], big[1], big[2], big[3]], [5, 6, 7])]
     jobs += [(a, b, gt.OPTION_COMBOS[0]) for a, b in large]
+    # other front ends: the plist wrapper (a bare EditCollection around the root comparison; zero-size roots such as an empty
+    # array / dict / string make its constant ceiling tight), XML elements, CSV tables
+    rnd = random.Random(seed)
+    roots = [[], {}, "", "graphtage", 0, [1], {"a": 1}, [[]], {"a": []}, ["", ""], 3.5, True]
+    jobs += [(('plist', a), ('plist', b), o) for a in roots for b in roots for o in gt.OPTION_COMBOS[::4]]
+    pdocs = [d for d in docs if 'None' not in repr(d)]
+    jobs += [(('plist', rnd.choice(pdocs)), ('plist', rnd.choice(pdocs)), gt.OPTION_COMBOS[rnd.randrange(9)])
+             for _ in range(1000 if tier == 'quick' else 10000)]
+    # (a plist document compared with a bare tree: PLISTNode.edits falls through to root.edits(node))
+    jobs += [(('plist', a), b, gt.OPTION_COMBOS[0]) for a in roots for b in roots]
+    xs, cs = gt.xml_specs(), gt.csv_specs()
+    jobs += [(('xml', rnd.choice(xs)), ('xml', rnd.choice(xs)), gt.OPTION_COMBOS[rnd.randrange(9)]) for _ in range(600 if tier == 'quick' else 6000)]
+    jobs += [(('csv', rnd.choice(cs)), ('csv', rnd.choice(cs)), gt.OPTION_COMBOS[rnd.randrange(9)]) for _ in range(300 if tier == 'quick' else 3000)]
     res = pmap(_run_pair, jobs, repo_root)
     fails = [f for _, fs, _ in res for f in fs]
     calls = sum(c for c, _, _ in res)
